@@ -54,6 +54,10 @@ def kind(e):
   return type(e).__name__
 
 
+def _has_text(node):
+  return node[0] in ("Text", "Br") or (node[0] != "Text" and any(_has_text(k) for k in node[2]))
+
+
 class Snap:
   def __init__(self, doc, t):
     self.doc = doc
@@ -101,6 +105,8 @@ class Snap:
       core = ks[1:-1] if len(ks) > 2 and ks[0] == "Rp" and ks[-1] == "Rp" else ks
       if not all(k == "Rt" for k in core):
         self.ruby_pattern_broken = True
+    if isinstance(e, (m.Ruby, m.Rtc)) and not _has_text(node):
+      return None          # a ruby container none of whose parts has anything to present (text, line break) is not presented
     if isinstance(e, (m.Rb, m.Rbc)):
       return node          # ruby bases are kept even when empty (either reading is accepted by the comparison)
     return node if node[2] else None
